@@ -24,7 +24,7 @@ func c02Run(t *testing.T, p Plan) vk.Result {
 	if out.stats.InRSTAfterTrailers > 0 {
 		cl = append(cl, "rst_no_error_after_trailers")
 	}
-	for _, c := range []string{"trailers_only", "cancel_mid_message", "close_mid_message", "peer_rst_mid_message"} {
+	for _, c := range []string{"trailers_only", "cancel_mid_message", "close_mid_message", "peer_rst_mid_message", "write_after_last_issued", "write_after_last_accepted_by_transport"} {
 		if out.classes[c] {
 			cl = append(cl, c)
 		}
